@@ -4,6 +4,7 @@ CONSTANTS
   NRefs = 2
   InitName = "five"
   FieldOpsName = "three"
+  ShapeSet = {"plain"}
   MaxOps = 4
   Export = TRUE
 INVARIANT AliasesAgree
